@@ -43,7 +43,7 @@ func genC10(tier string, seed int64) []Case {
 	}
 	if tier == "thorough" {
 		r := rng(seed, "C10")
-		for i := 0; i < 300; i++ {
+		for i := 0; i < 1200; i++ {
 			ph := c10Phases[r.Intn(len(c10Phases))]
 			d := c10Desc{Phase: ph, Extra: 1 + r.Intn(3), Exts: r.Intn(3), Offset: r.Intn(3000), History: r.Intn(4)}
 			if ph == "responded" && d.Exts == 0 {
